@@ -646,7 +646,17 @@ func genBasm(t *rapid.T) BasmCase {
 				nShared += 2
 			}
 		}
-		for k, p := range pairs {
+		// the two ioatt lines of a bond in either order (the `cp: bm` line first, or the sink before the
+		// source), and the bonds themselves in any order: the text order must not matter
+		order := rapid.Permutation(seqInts(len(pairs))).Draw(t, "bondorder")
+		if !rapid.Bool().Draw(t, "shufflebonds") {
+			order = seqInts(len(pairs))
+		}
+		for _, k := range order {
+			p := pairs[k]
+			if rapid.IntRange(0, 2).Draw(t, "swapends") == 0 {
+				p[0], p[1] = p[1], p[0]
+			}
 			for _, a := range p {
 				fmt.Fprintf(&sb, "%%meta ioatt b%d cp: %s, index:%d, type:%s\n", k, a.cp, a.idx, a.typ)
 			}
@@ -724,7 +734,8 @@ func genUnfit(t *rapid.T) UnfitCase {
 	n := rapid.SampledFrom([]int{3, 4, 5, 7, 8, 9}).Draw(t, "len")
 	var body []string
 	cpdefExtra := ""
-	kinds := []string{"imm-wide:rset", "imm-wide:mov", "jump-beyond:j", "jump-beyond:jz", "reg-huge", "port-beyond:in", "port-beyond:out", "romsize-small", "ram-beyond", "romaddr-beyond"}
+	nData := 0
+	kinds := []string{"imm-wide:rset", "imm-wide:mov", "jump-beyond:j", "jump-beyond:jz", "reg-huge", "port-beyond:in", "port-beyond:out", "romsize-small", "romsize-small:data", "ram-beyond", "romaddr-beyond"}
 	c.Kind = rapid.SampledFrom(kinds).Draw(t, "kind")
 	var bad string
 	switch c.Kind {
@@ -755,6 +766,15 @@ func genUnfit(t *rapid.T) UnfitCase {
 		}
 		cpdefExtra = fmt.Sprintf(", romsize:%d", rapid.IntRange(1, o-1).Draw(t, "romsize"))
 		bad = "inc r1"
+	case "romsize-small:data":
+		// the user's ROM holds the code, but code + data need one or two cells more than it has
+		o := bitsFor(n)
+		if o < 2 {
+			o = 2
+		}
+		nData = (1 << uint(o)) - n + rapid.SampledFrom([]int{1, 1, 2}).Draw(t, "cellsover")
+		cpdefExtra = fmt.Sprintf(", romsize:%d, romdata: data", o)
+		bad = "inc r1"
 	case "ram-beyond":
 		k := rapid.IntRange(1, 6).Draw(t, "ramsize")
 		cpdefExtra = fmt.Sprintf(", ramsize:%d", k)
@@ -776,6 +796,13 @@ func genUnfit(t *rapid.T) UnfitCase {
 		fmt.Fprintf(&sb, "\t%s\n", l)
 	}
 	sb.WriteString("%endsection\n")
+	if nData > 0 {
+		sb.WriteString("%section data .romdata\n")
+		for k := 0; k < nData; k++ {
+			fmt.Fprintf(&sb, "\tk%d dd 0x%x\n", k, 1+k)
+		}
+		sb.WriteString("%endsection\n")
+	}
 	fmt.Fprintf(&sb, "%%meta cpdef cp0 romcode: code%s\n", cpdefExtra)
 	sb.WriteString("%meta ioatt b0 cp: cp0, index:0, type:output\n%meta ioatt b0 cp: bm, index:0, type:output\n")
 	fmt.Fprintf(&sb, "%%meta bmdef global registersize:%d\n", c.Rsize)
